@@ -51,6 +51,7 @@ import (
 	"github.com/haqq-network/haqq/utils"
 	coinomicstypes "github.com/haqq-network/haqq/x/coinomics/types"
 	evmtypes "github.com/haqq-network/haqq/x/evm/types"
+	epochstypes "github.com/haqq-network/haqq/x/epochs/types"
 	feemarkettypes "github.com/haqq-network/haqq/x/feemarket/types"
 )
 
@@ -89,6 +90,8 @@ type GenesisCfg struct {
 	GenesisTime string `json:"genesisTime"`
 	// HistoricalEntries of x/staking (0: the default); a small value prunes the header history BLOCKHASH is served from
 	HistoricalEntries uint32 `json:"historicalEntries"`
+	// FutureEpoch (RFC 3339): a further registered epoch that has not started and whose start lies in the chain's future
+	FutureEpoch string `json:"futureEpoch"`
 }
 
 func DefaultGenesisCfg(seed int64) GenesisCfg {
@@ -212,6 +215,16 @@ func (w *World) GenesisState() (map[string]json.RawMessage, []abci.ValidatorUpda
 	sl.Params.DowntimeJailDuration = 10 * time.Second
 	sl.SigningInfos = signInfos
 	gs[slashingtypes.ModuleName] = cdc.MustMarshalJSON(sl)
+
+	if cfg.FutureEpoch != "" {
+		if st, err := time.Parse(time.RFC3339, cfg.FutureEpoch); err == nil {
+			var eg epochstypes.GenesisState
+			cdc.MustUnmarshalJSON(gs[epochstypes.ModuleName], &eg)
+			eg.Epochs = append(eg.Epochs, epochstypes.EpochInfo{Identifier: "later", StartTime: st.UTC(), Duration: time.Hour,
+				CurrentEpoch: 0, CurrentEpochStartHeight: 0, CurrentEpochStartTime: time.Time{}, EpochCountingStarted: false})
+			gs[epochstypes.ModuleName] = cdc.MustMarshalJSON(&eg)
+		}
+	}
 
 	fm := feemarkettypes.DefaultGenesisState()
 	fm.Params.NoBaseFee = cfg.NoBaseFee
